@@ -487,6 +487,8 @@ CROSS = [
     ("bytes", [b"ab", b"cd", b""], "bytes", [b"ab", b"", b"abc"]),
     ("str", ["ab", "cd", ""], "bytes", [b"ab", b""]),
     ("bool", [True, False], "int-edge", [1, 0, 2]),
+    ("int-small", [6, 3, 0], "bool", [True, False]),          # & | ^ between flags and counts: the result is still a bool vector
+    ("int-small", [6, 3, 0], "int-small", [2, 0, 5]),
     ("str", ["ab", "a"], "str-long", ["ab", "abc"]),       # a scalar whose own length equals the vector's is still a scalar
 ]
 
@@ -499,7 +501,7 @@ def unit_compare_cross(unit):
     for n in range(1, maxlen + 1):
         for xs in itertools.product(lalpha, repeat=n):
             xs = list(xs)
-            for opn, op in CMP.items():
+            for opn, op in list(CMP.items()) + (list(LOGIC.items()) if {lk, rk} <= {"bool", "int-edge", "int-small"} else []):
                 # scalar right operand, both orders
                 for y in ralpha:
                     for order in ("v-op-s", "s-op-v"):
